@@ -1,4 +1,5 @@
 import Gallia.Proofs.Lemmas.HsfzSys
+import Gallia.Proofs.Lemmas.HsfzOrder
 import Gallia.Gen.C07Hsfz
 /-
   C07 — HSFZ: frames are demultiplexed correctly under any segmentation and interleaving.
@@ -175,6 +176,26 @@ theorem read_blocks_keeps_nothing_deliverable (cfg : Cfg) (s : Sys) (sk' : List 
   subst e
   simp only [dataOf, List.nil_append, List.map_eq_nil_iff, List.filter_eq_nil_iff]
   intro x hx; simp [(hc x hx).2]
+
+/-- **whole executions.**  For every configuration, every schedule of reader task and consumer, and every
+    operation script — any segmentation of the byte stream, frames injected before / during / after writes and reads,
+    any ack and caller timeouts, error words, end of stream — the payloads handed out by reads so far, followed by
+    the ECU -> tester payloads still held by a blocked consumer, queued, or complete in the receive buffer, are
+    exactly the payloads of the ECU -> tester data frames of the stream, in stream order: nothing is lost,
+    duplicated, invented or reordered (in particular not by the ack wait, however it ends) -/
+theorem reads_account_for_every_frame (cfg : Cfg) (yields : Wire → Bool) (ops : List Op) :
+    delivered (exec cfg yields {} ops).done ++
+      dataOf cfg (held (exec cfg yields {} ops).client ++
+        ((exec cfg yields {} ops).queue ++ items (parseAll hsfzCutter (exec cfg yields {} ops).buf).1)) =
+    dataOf cfg (items (parseAll hsfzCutter (fedBytes ops)).1) := by
+  obtain ⟨_, h⟩ := exec_arrived cfg yields ops {} (WF_idle cfg _ rfl)
+  have := h []
+  simpa [arrived, held] using this
+
+/-- hence reads deliver, in order, a prefix of the ECU -> tester payloads of the stream -/
+theorem reads_in_arrival_order (cfg : Cfg) (yields : Wire → Bool) (ops : List Op) :
+    delivered (exec cfg yields {} ops).done <+: dataOf cfg (items (parseAll hsfzCutter (fedBytes ops)).1) :=
+  ⟨_, reads_account_for_every_frame cfg yields ops⟩
 
 /-! ### write and ack -/
 
